@@ -142,6 +142,7 @@ pub enum Probe {
     ExtractSizeHint,
     EntryOrDefault,
     IndexOp,
+    FromArray,
     _Count,
 }
 pub const NPROBE: usize = Probe::_Count as usize;
@@ -224,6 +225,7 @@ pub const PROBE_NAMES: [&str; NPROBE] = [
     "extract_size_hint",
     "entry_or_default",
     "index_op",
+    "from_array",
 ];
 
 #[derive(Clone, Debug)]
@@ -265,6 +267,7 @@ pub struct Sim {
     pub total_counts: [u64; NCLASS],
     pub fired_counts: [u64; NCLASS],
     pub op_callbacks: u64,
+    pub quiet: bool,
     pub callback_cap: u64,
     pub eq_mode: EqMode,
     pub byz_rng: Rng,
@@ -308,6 +311,7 @@ impl Sim {
             total_counts: [0; NCLASS],
             fired_counts: [0; NCLASS],
             op_callbacks: 0,
+            quiet: false,
             callback_cap: u64::MAX,
             eq_mode: EqMode::Lawful,
             byz_rng: Rng::new(0),
@@ -442,6 +446,11 @@ pub fn tick(c: Class) {
     let mut diverge = None;
     {
         let mut s = sim();
+        if s.quiet {
+            // a section whose callback count depends on something the simulator does not own (the randomly
+            // seeded default hasher): neither counted nor a fault target, so that it cannot perturb replay
+            return;
+        }
         s.counts[c as usize] += 1;
         s.total_counts[c as usize] += 1;
         s.op_callbacks += 1;
